@@ -31,6 +31,11 @@ CHECKS = [
   "design_ref": "DESIGN.md section 4 C04",
   "note": "Error-free programs under non-binding limits; `trusting previous` in the authorizer modelled as implemented; quick tier replays a seeded sample of the `checks` universe and all of `alts`.",
   "technique": "TLA+ spec of scoped Datalog + TLC enumeration of program universes; every exported state replayed on the real authorizer"},
+ {"id": "C05", "level": "model_checking",
+  "text": "Datalog.tla defines rule application with provenance and the least fixpoint; TLC enumerates small programs (every term type, joins, repeated variables, recursion, empty bodies, guards, unbound head variables, arbitrary origin and trust sets), checks that the result is a supported fixpoint respecting trust, and exports each program with its fixpoint and per-pass level sizes; the real datalog::World must produce exactly the same set of (origin set, fact) pairs, the same level sizes (iteration hook) and the same result under shuffled insertion orders.",
+  "design_ref": "DESIGN.md section 4 C05",
+  "note": "Non-binding limits; guards restricted to ==, !=, <, division in this universe (expression semantics is C06); programs of <= 2 rules and <= 4 initial facts.",
+  "technique": "TLA+ spec of scoped Datalog + TLC enumeration; every exported program replayed on the real engine with iteration-level events"},
 ]
 
 _TODO = "check not built yet in this round; will be decided with the TLA+ specification (see DESIGN.md section 4)"
